@@ -275,6 +275,37 @@ theorem fold_filter (f : String → Grid Tok → Grid Tok) (l0 : Laser) (es : Li
       simp [hnd'.1]
     · simp [hne]
 
+/-- the table of filtered elements of `filterSpec`, looked up -/
+theorem lookup_done {β} (xs : List String) (p : String → Bool) (F : String → β) (n : String) :
+    ((xs.filter p).map fun m => (m, F m)).lookup n = if n ∈ xs ∧ p n = true then some (F n) else none := by
+  induction xs with
+  | nil => simp
+  | cons x t ih =>
+    by_cases hp : p x = true
+    · simp only [List.filter_cons, hp, if_true, List.map_cons, List.lookup_cons, List.mem_cons]
+      by_cases hn : n = x
+      · subst hn; simp [hp]
+      · have : (n == x) = false := by simpa using hn
+        rw [this, ih]; simp [hn]
+    · simp only [List.filter_cons, hp, Bool.false_eq_true, if_false, List.mem_cons]
+      rw [ih]
+      by_cases hn : n = x
+      · subst hn; simp [hp]
+      · simp [hn]
+
+/-- the pixel function of `filterSpec`, read off -/
+theorem filterSpec_get (f : String → Grid Tok → Grid Tok) (sel : Option (List String)) (l : Laser)
+    (i j : Nat) (n : String) :
+    (filterSpec f sel l).data.get i j n =
+      if selected sel l n = true then (f n (l.field n)).get i j else l.data.get i j n := by
+  simp only [filterSpec, lookup_done]
+  by_cases hs : selected sel l n = true
+  · have hm : n ∈ l.elements := by
+      simp only [selected, Bool.and_eq_true, List.contains_iff_mem] at hs
+      exact hs.1
+    simp [hs, hm]
+  · simp [hs]
+
 /-! ## where files go -/
 
 theorem save_placed (l : Laser) (p : Path) (fs : List File) (h : save l p = .ok fs) :
